@@ -64,7 +64,7 @@ Theorem xlsb_package_main : forall formats c wb rjunk total items trailer (pk : 
   xlsb_package_model fdiv100 show_f64 formats (xlsb_rels_events rjunk (bc_rels c)) (xlsb_workbook_bin c wb)
                      (Some (XlsbRec.encode_sst total items trailer)) pk =
   Ok (mkXbRes (wb_sheets wb) 
-        (spec_names_xlsb show_f64 (spec_ext (map m_name (wb_sheets wb)) (bc_xtis c)) [] (wb_names wb))
+        (spec_names_xlsb show_f64 (spec_ext (map m_name (wb_sheets wb)) (bc_xtis c)) (wb_names wb))
         (wb_1904 wb)
         (map (fun x : (str * str) * (XlsbRec.layout * list XlsbRec.cellr) =>
                 (fst (fst x), XlsbRec.range_of (XlsbRec.RVal DEmpty) (snd (snd x))))
